@@ -251,6 +251,9 @@ Definition chk (c : streams * list (rop * xp)) : bool := replay (mkR (fst c) [] 
       chk.violation('oracle', 'the same Linen program with the same seeds handed out other keys on a later apply (nn.jit cache hit vs the apply that traced)', {'case': c, 'observed': runs})
     elif len({tuple(k) for k in runs[0]}) != len(runs[0]):
       chk.violation('oracle', 'one key was handed out twice within one apply under nn.jit', {'case': c, 'observed': runs[0]})
+    elif r['ok'].get('jit_disabled') != runs[0]:
+      chk.violation('oracle', 'the keys handed out under nn.jit depend on which call was traced first: they differ from the same nn.jit program evaluated under jax.disable_jit() '
+                    '(a later call re-used a trace made at other rng counters)', {'case': c, 'jit': runs[0], 'jit_disabled': r['ok'].get('jit_disabled')})
   # sibling modules / child scopes passed as ARGUMENTS into a jitted or fold_rngs-wrapped module (F31)
   ja = [{'form': f, 'nsib': rng.randint(2, 3), 'draws': rng.randint(1, 2), 'own': rng.random() < 0.6, 'applies': 2, 'seed': rng.randint(0, 99)}
         for f in ('method', 'class', 'fold', 'core') for _ in range(3 if thorough else 1)]
